@@ -11,6 +11,11 @@ impl vstd::std_specs::convert::FromSpecImpl<u8> for Http2FrameType {
     open spec fn obeys_from_spec() -> bool { true }
     open spec fn from_spec(v: u8) -> Self { spec_frame_type(v) }
 }
+impl vstd::std_specs::cmp::PartialEqSpecImpl for Http2FrameType {
+    open spec fn obeys_eq_spec() -> bool { true }
+    open spec fn eq_spec(&self, other: &Self) -> bool { *self == *other }
+}
+pub open spec fn is_req_headers(f: Http2Frame) -> bool { f.stream_id > 0 && f.frame_type == Http2FrameType::Headers }
 pub open spec fn h2_len(d: Seq<u8>) -> int { spec_be32(0, d[0], d[1], d[2]) }
 pub open spec fn h2_stream(d: Seq<u8>) -> u32 { (spec_be32(d[5], d[6], d[7], d[8]) as u32) & 0x7FFF_FFFFu32 }  // reserved bit masked
 pub open spec fn frame_ok(f: Http2Frame, d: Seq<u8>) -> bool {
